@@ -6,6 +6,12 @@ From SV Require Import Common.Int32 C02.Kernels C02deep.Syntax C02deep.Sem C02de
   C02loop.Analysis C02loop.Licm C02loop.Algebraic C02loop.StrengthIv C02loop.Driver C02loop.Classes.
 Open Scope Z_scope.
 
+(* split conjunctions only (a plain `split` on an equation would try to convert both sides lazily) *)
+Ltac splits := repeat match goal with |- _ /\ _ => split end.
+(* one goal at a time: an earlier goal instantiates the existential variables of the later ones *)
+Ltac vmr := vm_compute; reflexivity.
+Ltac chain := lazymatch goal with |- _ /\ _ => split; [vmr | chain] | |- _ => vmr end.
+
 (* a world whose calls return their first argument + 1 and never fail *)
 Definition ww : world :=
   mkworld (fun _ _ vs => Some (wrap32 (hd 0 vs + 1))) (fun s => Z.of_N s) (fun z => z) (fun _ v => v) (fun _ _ => 0).
@@ -32,7 +38,7 @@ Lemma licm_old_refuted :
     sem All ww f [5; 0] 10 = Done 5 [] /\ sem Wrap ww f' [5; 0] 10 = Trap [] /\
     (* a run that traps: the call in front of the division is lost *)
     sem Wrap ww f [0; 0] 10 = Trap [(0%N, [0])] /\ sem Wrap ww f' [0; 0] 10 = Trap [].
-Proof. exists f_licm_div. eexists. eexists. repeat split; vm_compute; reflexivity. Qed.
+Proof. exists f_licm_div. eexists. eexists. chain. Qed.
 
 Lemma licm_repaired_on_old_witness :
   exists f' fl,
@@ -40,7 +46,7 @@ Lemma licm_repaired_on_old_witness :
     sem Wrap ww f' [5; 0] 10 = Done 5 [] /\ sem Wrap ww f' [0; 0] 10 = Trap [(0%N, [0])] /\
     sem Wrap ww f' [1; 2] 10 = Done 3 [(1%N, [5]); (0%N, [2]); (1%N, [5]); (0%N, [1])] /\
     sem Wrap ww f_licm_div [1; 2] 10 = Done 3 [(1%N, [5]); (0%N, [2]); (1%N, [5]); (0%N, [1])].
-Proof. eexists. eexists. repeat split; vm_compute; reflexivity. Qed.
+Proof. eexists. eexists. chain. Qed.
 
 (* ---- the induction analysis before fix 8c133db: the guard comparison is dropped although its name is still
    read by the body (here: passed to a call) *)
@@ -59,7 +65,7 @@ Lemma guard_name_old_refuted :
     wf_func f = true /\ loop_pass_v (false, true) sup0 f = Some (f', fl) /\ wf_func f' = false /\
     sem All ww f [1] 10 = Done 3 [(0%N, [1]); (0%N, [1])] /\
     sem Wrap ww f' [1] 10 = Done 3 [(0%N, [0]); (0%N, [0])].
-Proof. exists f_guard_used. eexists. eexists. repeat split; vm_compute; reflexivity. Qed.
+Proof. exists f_guard_used. eexists. eexists. chain. Qed.
 
 Lemma guard_name_repaired_on_old_witness :
   exists fl, loop_pass sup0 f_guard_used = Some (f_guard_used, fl) /\ f_extract fl = 0%N.
@@ -82,21 +88,21 @@ Lemma ive_guard_operator_refuted :
   exists f f' fl,
     wf_func f = true /\ loop_pass sup0 f = Some (f', fl) /\ f_ive fl = 1%N /\
     sem All ww f [0; 0] 40 = Done 30 [] /\ sem Wrap ww f' [0; 0] 40 = Done 27 [].
-Proof. exists (f_iv GT false 1 3 10). eexists. eexists. repeat split; vm_compute; reflexivity. Qed.
+Proof. exists (f_iv GT false 1 3 10). eexists. eexists. chain. Qed.
 
 (* (b) `<` and a negative multiplier *)
 Lemma ive_negative_multiplier_refuted :
   exists f f' fl,
     wf_func f = true /\ loop_pass sup0 f = Some (f', fl) /\ f_ive fl = 1%N /\
     sem All ww f [0; 7] 40 = Done (-18) [] /\ sem Wrap ww f' [0; 7] 40 = Done 7 [].
-Proof. exists (f_iv LT true 1 (-2) 10). eexists. eexists. repeat split; vm_compute; reflexivity. Qed.
+Proof. exists (f_iv LT true 1 (-2) 10). eexists. eexists. chain. Qed.
 
 (* (c) `<`, positive constant multiplier, but multiplier * bound is not representable: 3 * 715827883 wraps *)
 Lemma ive_bound_overflow_refuted :
   exists f f' fl,
     wf_func f = true /\ loop_pass sup0 f = Some (f', fl) /\ f_ive fl = 1%N /\
     sem All ww f [715827880; 0] 40 = Done 2147483646 [] /\ sem Wrap ww f' [715827880; 0] 40 = Done 0 [].
-Proof. exists (f_iv LT true 1 3 715827883). eexists. eexists. repeat split; vm_compute; reflexivity. Qed.
+Proof. exists (f_iv LT true 1 3 715827883). eexists. eexists. chain. Qed.
 
 (* (d) multiplier * initial value is not representable, on a loop that is left at once (the original never
    multiplies): the optimised loop keeps running *)
@@ -104,7 +110,7 @@ Lemma ive_initial_overflow_refuted :
   exists f f' fl,
     wf_func f = true /\ loop_pass sup0 f = Some (f', fl) /\ f_ive fl = 1%N /\
     sem All ww f [1000000000; 77] 40 = Done 77 [] /\ sem Wrap ww f' [1000000000; 77] 40 = OutOfFuel.
-Proof. exists (f_iv LT true 1 3 5). eexists. eexists. repeat split; vm_compute; reflexivity. Qed.
+Proof. exists (f_iv LT true 1 3 5). eexists. eexists. chain. Qed.
 
 (* (e) all of bound, initial value and their products fine, but the product at the value with which the loop is
    left (406 = 0 + 7 * 58, above the bound 400) is not: 5368709 * 406 wraps *)
@@ -115,7 +121,8 @@ Lemma ive_exit_overflow_refuted :
     sem All ww f [0; 0] 100 = Done 2142114891 [] /\ sem Wrap ww f' [0; 0] 100 = OutOfFuel.
 Proof.
   exists (f_iv LT true 7 5368709 400). eexists. eexists.
-  repeat split; try (vm_compute; reflexivity); vm_compute; intros H; discriminate H.
+  split; [vmr|]. split; [vmr|]. split; [vmr|]. split; [vm_compute; split; intros H; discriminate H|].
+  split; [vm_compute; split; intros H; discriminate H|]. chain.
 Qed.
 
 (* ---- the closed form: the side condition "the exit value is representable" is needed.  i from 2^30+5 by 2^30+1
@@ -132,7 +139,7 @@ Lemma alg_exit_condition_needed :
 Proof.
   eexists. eexists. eexists. split; [vm_compute; reflexivity|]. split; [reflexivity|]. split; [vm_compute; reflexivity|].
   split; [vm_compute; intros [_ H]; apply H; reflexivity|].
-  split; eexists; split; vm_compute; reflexivity.
+  split; eexists; chain.
 Qed.
 
 (* ---- non-vacuity: a loop on which every sub-pass does something, in the current code.
@@ -158,10 +165,10 @@ Lemma loop_pass_nonvacuous :
     f_licm fl = 1%N /\ f_extract fl = 1%N /\ f_sr fl = 1%N /\ f' <> f_all /\
     classes_func f_all = [0; 0; 0; 0; 0; 0; 0]%N /\
     sem All ww f_all [14] 20 = sem Wrap ww f' [14] 20 /\
-    sem All ww f_all [14] 20 = Done 144 [(0%N, [10; 98]); (0%N, [5; 98]); (0%N, [0; 98])].
+    sem All ww f_all [14] 20 = Done 147 [(0%N, [10; 98]); (0%N, [5; 98]); (0%N, [0; 98])].
 Proof.
   eexists. eexists. split; [vm_compute; reflexivity|]. split; [vm_compute; reflexivity|].
-  repeat split; try (vm_compute; reflexivity). intros H; discriminate H.
+  split; [vmr|]. split; [vmr|]. split; [vmr|]. split; [intros H; discriminate H|]. chain.
 Qed.
 
 (* a counting loop with literal bounds is replaced by its closed form *)
@@ -177,6 +184,6 @@ Definition f_count : func :=
 Lemma alg_nonvacuous :
   exists f' fl,
     wf_func f_count = true /\ loop_pass sup0 f_count = Some (f', fl) /\ f_alg fl = 1%N /\
-    f_body f' = [SBin 101%N PLUS (EInt 28) (EInt 0); SBin 7%N PLUS (EVar 101%N) (EInt 100)] /\
+    f_body f' = [SBin 101%N MUL (EInt 7) (EInt 4); SBin 7%N PLUS (EVar 101%N) (EInt 100)] /\
     sem All ww f_count [] 20 = Done 128 [] /\ sem Wrap ww f' [] 20 = Done 128 [].
-Proof. eexists. eexists. repeat split; vm_compute; reflexivity. Qed.
+Proof. eexists. eexists. chain. Qed.
